@@ -64,6 +64,16 @@ CHECKS = {
             'are observed through a call log.',
             'Trusted: SUPPORTED_FORMULAS.md as the list of documented names; identifier grammar [A-Za-z_][A-Za-z0-9_]*.',
             'DESIGN.md §5 C09'),
+    'C10': ('exhaustive enumeration of formulas up to a node bound (event order), of the whole cell-label space '
+            '(coordinates), of corner orders x $ patterns (ranges) and of all setter-call sequences (explicit-state, K1) with '
+            'recording listeners as the observer; ' + K3,
+            'All expression trees with <= 5/6 nodes mixing cells, ranges, variables and nested calls are evaluated with '
+            'recording listeners and the event list compared with a reference post-order walk; every column label of <= 3/4 '
+            'letters and every row are sent through a formula and the event coordinates compared with an independent '
+            'bijective base-26 reference; all setter sequences of length <= 3 over 8 values (falsy ones included) from one or '
+            'two listeners are replayed for each of the event kinds.',
+            'Trusted: the reference post-order evaluator (SUM/+/*/unary minus only) and itertools.product order as '
+            'bijective base-26.', 'DESIGN.md §5 C10'),
 }
 
 NOT_YET = 'check not built yet in this session (see DESIGN.md §5 for the planned bounded-exhaustive check)'
